@@ -32,9 +32,16 @@ func TestFakeClockReexec(t *testing.T) {
 		t0 := time.Now()
 		fakeClockStep = func(i int) {
 			// deterministic, job-independent schedule of jumps: 1 min .. ~30 years
-			spans := []time.Duration{time.Minute, 36 * time.Hour, 400 * 24 * time.Hour, 3 * time.Second, 11 * 365 * 24 * time.Hour, time.Millisecond}
+			spans := []time.Duration{time.Minute, 36 * time.Hour, 400 * 24 * time.Hour, 3 * time.Hour, 11 * 365 * 24 * time.Hour, 17 * time.Minute}
 			if os.Getenv("ELYSSIM_FAKECLOCK_NO_JUMPS") == "" {
-				time.Sleep(spans[i%len(spans)])
+				d := spans[i%len(spans)]
+				if time.Now().Year() >= 2150 {
+					// the runtime's clock is int64 nanoseconds since 1970 and ends in 2262: a long run
+					// stops making large jumps well before (beyond it time.Sleep's wake-up time
+					// saturates and the runtime throws "bad g->status in ready")
+					d = time.Minute
+				}
+				time.Sleep(d)
 			}
 		}
 		cmdReexec([]string{job})
